@@ -201,6 +201,8 @@ def main(modname):
                     ent.setdefault("replay_notes", []).append(str(rr)[:300])
             elif r["status"] in ("error", "inconclusive"):
                 ent.setdefault("notes", []).append(r.get("note", "")[:300])
+                if "CanaryNotApplicable" in r.get("note", ""):
+                    ent["not_applicable"] = True     # the anchored source line was rewritten: this mutant cannot be generated any more
             continue
         if r["status"] in ("error", "inconclusive"):
             problems.append(f"{name}: {r['status']}: {r.get('note', '')}\n{r.get('trace', '')}")
@@ -238,7 +240,13 @@ def main(modname):
             problems.append(f"solver counterexample(s) for {key} did not reproduce on the unpatched code: " + " | ".join(notes))
 
     # canaries that were required to bite
+    applicable = [c for c, ent in canaries.items() if not ent.get("not_applicable")]
+    if canaries and not applicable:
+        problems.append("no canary mutant could be generated from the current source (all anchored lines were rewritten): the check cannot show that it still bites")
     for cname, ent in canaries.items():
+        if ent.get("not_applicable"):
+            print(f"note: canary '{cname}' is not applicable to the current source (its anchored line was rewritten); skipped")
+            continue
         if ent["detected"] == 0 or ent["replayed"] == 0:
             problems.append(f"canary '{cname}' not detected/replayed ({ent}): the check has lost its teeth or the encoder is wrong")
 
